@@ -315,3 +315,156 @@ def transient_vs_delete_triples(r, tier):
         out.append(make_transient_vs_delete(r, level, r.choice(['local', 'remote']), minors=r.choice(TD_MINORS), nkeys=r.choice([1, 2, 3]),
                                             crossed=r.random() < 0.3, control=r.random() < 0.15))
     return out
+
+
+# ---------------------------------------------------------------------------------------------------------------------
+# Family 3: ONE output (or cell) carries BOTH a conflicting change and a separate, NON-conflicting one-sided change.
+#
+# The strategies that settle a conflict per output (inline-outputs, remove, clear-all) replace EVERY decision touching the
+# output -- the conflicting one and the agreed / one-sided ones next to it -- by a single bundled decision, whose local_diff
+# / remote_diff therefore have to carry the one-sided edits too; otherwise the decision list no longer determines both
+# sides.  Varied: the kind of output (stream, display_data, execute_result, error), where the conflict sits (a line of the
+# text, the evalue of an error, an output-metadata key, a source line of the cell), what the conflict is (rewrite / rewrite,
+# rewrite / deletion of the line and its predecessor), where the one-sided change sits (another line of the same text -- rewritten, inserted or deleted --,
+# the other mime type, the output metadata, the transient execution_count of a result, the ename / traceback of an error,
+# the cell's source or metadata; as a control: ANOTHER output of the cell), which side makes it (local, remote, each side a
+# different one), the position of the output among its siblings, cells around it, equal / different / upgraded minors.
+MX_OKINDS = ('stream', 'display_data', 'execute_result', 'error')
+MX_CONFLICTS = {'stream': ('line', 'line-del'), 'display_data': ('line', 'line-del', 'ometa'), 'execute_result': ('line', 'line-del', 'ometa'),
+                'error': ('line', 'evalue')}
+MX_EXTRAS = {'stream': ('line', 'line-ins', 'line-del'), 'display_data': ('line', 'line-ins', 'line-del', 'html', 'ometa'),
+             'execute_result': ('line', 'line-ins', 'line-del', 'html', 'ometa', 'oec'), 'error': ('line', 'line-ins', 'ename')}
+MX_CELL_EXTRAS = ('source', 'cmeta', 'other')          # one-sided change elsewhere in the cell (source / metadata / control: a sibling output)
+MX_WHO = ('local', 'remote', 'both')
+
+
+def _mx_lines(r, n, stem, nl='\n'):
+    words = list(_TAG); r.shuffle(words)
+    return ['%s %02d | %s | %d%s' % (stem, i, words[i % len(words)], r.randint(100, 9999), nl) for i in range(n)]
+
+
+def _mx_edit(lines, ops):
+    out = list(lines)
+    for kind, i, txt in sorted(ops, key=lambda o: -o[1]):
+        if kind == 'rewrite': out[i] = txt
+        elif kind == 'insert': out.insert(i, txt)
+        else: del out[i]
+    return out
+
+
+def make_mixed(r, okind, conflict, extra, who, minors='same', gap=4):
+    """one triple (name, base, local, remote): the target output has a conflict of kind `conflict` and, on the side(s) `who`,
+    a separate one-sided change of kind `extra`"""
+    bm, lm, rmm = _td_minors(r, minors)
+    items = _Items(r, 'cells4'); items.minor = bm
+    ncells = r.choice([1, 1, 2, 3]); pos = r.randrange(ncells)
+    cells = [items.cell(bm, 'code' if i == pos else None) for i in range(ncells)]
+    for i, c in enumerate(cells): c['_k'] = i
+    tgt = cells[pos]
+    nslots = r.choice([3, 3, 4]); n = max(gap, 2) * nslots + r.choice([1, 2, 3])
+    slots = [1 + gap * k + r.choice([0, 1]) for k in range(nslots)] if gap >= 2 else [1 + 2 * k for k in range(nslots)]
+    r.shuffle(slots)
+    nl = '' if okind == 'error' else '\n'
+    text = _mx_lines(r, n, r.choice(['row', 'step', 'epoch', 'item']), nl)
+    html = ['<tr><td>%d</td><td>%s</td></tr>\n' % (i, w) for i, w in enumerate(r.sample(_TAG, 9))]
+    src = _mx_lines(r, 9, 'v%d = run' % r.randint(1, 9))
+    ec = r.randint(1, 40)
+    if okind == 'stream': out = {'output_type': 'stream', 'name': r.choice(['stdout', 'stderr']), 'text': ''.join(text)}
+    elif okind == 'error': out = {'output_type': 'error', 'ename': 'ValueError', 'evalue': 'bad value %d' % r.randint(1, 99), 'traceback': list(text)}
+    else:
+        out = {'output_type': okind, 'data': {'text/plain': ''.join(text)}, 'metadata': {}}
+        if extra == 'html' or r.random() < 0.3: out['data']['text/html'] = ''.join(html)
+        if okind == 'execute_result': out['execution_count'] = ec
+        if conflict == 'ometa' and r.random() < 0.5: out['metadata']['needs_background'] = 'light'
+    nout = r.choice([1, 2, 2, 3]) if extra != 'other' else r.choice([2, 3])
+    outs = [items.output() for _ in range(nout - 1)]
+    j = r.randrange(nout); outs.insert(j, out)
+    jo = (j + 1) % nout                       # the sibling output of the control
+    if extra == 'other': outs[jo] = {'output_type': 'stream', 'name': 'stdout', 'text': ''.join(_mx_lines(r, 8, 'log'))}
+    tgt['outputs'] = outs; tgt['execution_count'] = ec; tgt['source'] = ''.join(src)
+
+    def find(cs):
+        for c in cs:
+            if c['_k'] == pos: return c
+
+    def on_text(ops):                         # edit the lines of the target output's text
+        def f(cs):
+            o = find(cs)['outputs'][j]
+            if okind == 'stream': o['text'] = ''.join(_mx_edit(text, ops))
+            elif okind == 'error': o['traceback'] = _mx_edit(text, ops)
+            else: o['data']['text/plain'] = ''.join(_mx_edit(text, ops))
+        return f
+
+    text_ops = {'local': [], 'remote': []}; edits = {'local': [], 'remote': []}
+    def new_line(side, what): return '%s %s %04x%s' % (side.upper(), what, r.randrange(16 ** 4), nl)
+    # the conflict
+    s0 = slots.pop()
+    if conflict == 'line':
+        for s in ('local', 'remote'): text_ops[s].append(('rewrite', s0, new_line(s, 'conflicting')))
+    elif conflict == 'line-del':
+        d = r.choice(['local', 'remote']); o = 'remote' if d == 'local' else 'local'
+        text_ops[d] += [('delete', s0, None), ('delete', s0 - 1, None)]; text_ops[o].append(('rewrite', s0, new_line(o, 'conflicting')))
+    elif conflict == 'evalue':
+        for s in ('local', 'remote'): edits[s].append(lambda cs, s=s: find(cs)['outputs'][j].__setitem__('evalue', 'bad value seen by ' + s))
+    elif conflict == 'ometa':
+        for s in ('local', 'remote'): edits[s].append(lambda cs, s=s: find(cs)['outputs'][j]['metadata'].__setitem__('needs_background', 'dark-' + s))
+    elif conflict == 'source':
+        for s in ('local', 'remote'):
+            edits[s].append(lambda cs, s=s: find(cs).__setitem__('source', ''.join(_mx_edit(src, [('rewrite', 4, '%s = conflicting()\n' % s)]))))
+    # the one-sided change(s)
+    for s in (('local', 'remote') if who == 'both' else (who,)):
+        if extra in ('line', 'line-ins', 'line-del'):
+            text_ops[s].append(({'line': 'rewrite', 'line-ins': 'insert', 'line-del': 'delete'}[extra], slots.pop(), new_line(s, 'alone')))
+        elif extra == 'html':
+            k = 1 if s == 'local' else 6
+            edits[s].append(lambda cs, s=s, k=k: find(cs)['outputs'][j]['data'].__setitem__('text/html', ''.join(_mx_edit(html, [('rewrite', k, '<tr><td>%s</td></tr>\n' % s)]))))
+        elif extra == 'ometa':
+            edits[s].append(lambda cs, s=s: find(cs)['outputs'][j]['metadata'].__setitem__('note-' + s, {'width': 320}))
+        elif extra == 'oec':
+            edits[s].append(lambda cs, s=s: find(cs)['outputs'][j].__setitem__('execution_count', ec + (1 if s == 'local' else 2)))
+        elif extra == 'ename':
+            edits[s].append(lambda cs, s=s: find(cs)['outputs'][j].__setitem__('ename', 'ValueError' + s.capitalize()))
+        elif extra == 'source':
+            k = 1 if s == 'local' else 7
+            edits[s].append(lambda cs, s=s, k=k: find(cs).__setitem__('source', ''.join(_mx_edit(find(cs)['source'].splitlines(True), [('rewrite', k, '%s_alone = 1\n' % s)]))))
+        elif extra == 'cmeta':
+            edits[s].append(lambda cs, s=s: find(cs)['metadata'].__setitem__('note-' + s, 'reviewed'))
+        elif extra == 'other':
+            k = 1 if s == 'local' else 6
+            edits[s].append(lambda cs, s=s, k=k: find(cs)['outputs'][jo].__setitem__('text', ''.join(_mx_edit(find(cs)['outputs'][jo]['text'].splitlines(True), [('rewrite', k, '%s alone\n' % s)]))))
+    if ec and who == 'both' and extra == 'oec' and r.random() < 0.5:       # a re-run: the cell's count moves with the output's
+        edits['local'].append(lambda cs: find(cs).__setitem__('execution_count', ec + 1))
+
+    def side(s):
+        def go(cs):
+            if text_ops[s]: on_text(text_ops[s])(cs)
+            for f in edits[s]: f(cs)
+        return go
+    b = _td_side(cells, bm, bm, lambda cs: None)
+    l = _td_side(cells, lm, bm, side('local'))
+    rm = _td_side(cells, rmm, bm, side('remote'))
+    name = 'mixed:%s:%s+%s:%s-alone:out%dof%d:gap%d@4.%d%d%d' % (okind, conflict, extra, who, j, nout, gap, bm, lm, rmm)
+    return (name, b, l, rm)
+
+
+def mixed_change_triples(r, tier):
+    """systematic part: every output kind x every place of the one-sided change x side making it (the conflict on a line of the
+    text), every kind of conflict once per output kind, the cell-level places and the sibling-output control;
+    sampled part: all dimensions incl. minors and the distance between the two changes"""
+    out = []
+    for okind in MX_OKINDS[:3]:               # (any change to an error output makes it a different output: sampled part only)
+        for extra in MX_EXTRAS[okind]:
+            for who in (MX_WHO if extra == 'line' else (r.choice(MX_WHO[:2]),)):
+                out.append(make_mixed(r, okind, 'line', extra, who))
+        for conflict in MX_CONFLICTS[okind][1:]:
+            out.append(make_mixed(r, okind, conflict, 'line', r.choice(MX_WHO)))
+        out.append(make_mixed(r, okind, 'source', 'line', r.choice(MX_WHO)))
+        out.append(make_mixed(r, okind, 'line', r.choice(MX_CELL_EXTRAS), r.choice(MX_WHO)))
+    for extra in MX_CELL_EXTRAS:
+        out.append(make_mixed(r, r.choice(MX_OKINDS), 'line', extra, r.choice(MX_WHO)))
+    for _ in range(16 if tier == 'quick' else 300):
+        okind = r.choice(MX_OKINDS)
+        conflict = r.choice(MX_CONFLICTS[okind] + ('source',))
+        pool = MX_EXTRAS[okind] + MX_CELL_EXTRAS if conflict != 'source' else MX_EXTRAS[okind]
+        out.append(make_mixed(r, okind, conflict, r.choice(pool), r.choice(MX_WHO), minors=r.choice(TD_MINORS), gap=r.choice([1, 2, 3, 4, 5])))
+    return out
